@@ -1,6 +1,7 @@
 use crate::common::Ctx;
 use serde_json::Value;
 
+pub mod c07;
 pub mod c09;
 pub mod c14;
 pub mod c15;
@@ -15,6 +16,7 @@ type ReplayFn = fn(&Ctx, &Value) -> Result<(bool, String), String>;
 
 fn table(prop: &str) -> Option<(RunFn, ReplayFn)> {
     Some(match prop {
+        "C07" => (c07::run, c07::replay),
         "C09" => (c09::run, c09::replay),
         "C14" => (c14::run, c14::replay),
         "C15" => (c15::run, c15::replay),
